@@ -96,6 +96,7 @@ func c04Main(args []string) error {
 			// to remap would wait for the copying reader itself - map far more than any history needs
 			o.imm = 256 << 20
 			cfg.backups = true
+			cfg.faults = true // a commit that fails (physical rollback) between a reader's begin and its copy is one of "any steps"
 			cfg.reopen = false
 		}
 		if cfg.readers && !*backups && cr.chance(3, 4) {
